@@ -930,6 +930,9 @@ func (rule *RuleExpression) checkMatrix(m *Matrix) *ObjectType {
 		if combi.Expression != nil {
 			ty := rule.checkOneExpression(combi.Expression, "matrix combination at element of include section", "jobs.<job_id>.strategy")
 			if ty == nil {
+				// The element is given by an expression, so it may add any key even when the expression
+				// itself was reported. Same as "matrix:", "include:" and rows given by expressions.
+				o.Loose()
 				continue
 			}
 			if merged, ok := o.Merge(ty).(*ObjectType); ok {
